@@ -14,11 +14,11 @@ CHECKS = {
 
  "C02": dict(level="exploration", design="DESIGN.md §7 C02",
    technique="exhaustive small-scope enumeration against two independent references (spec-derived refwire + protowire), all field sequences <= L for Skip",
-   text="Every enumerated triple: Encoder bytes == spec-derived reference == protowire; reference bytes decode (safe+fast) to the reference value with full consumption. Skip: every sequence of <= 3 (thorough 4) well-formed fields over a 98-symbol field alphabet (80 minimal encodings + 18 fields whose key is a padded, non-minimal varint): DecodeTag+Skip returns input[start:end], cursor at end, concatenation reproduces the input. thorough adds all 2^32 values of 32-bit kinds and all 2^29-1 field numbers.",
+   text="Every enumerated triple: Encoder bytes == spec-derived reference == protowire; reference bytes decode (safe+fast) to the reference value with full consumption. Skip: every sequence of <= 3 (thorough 4) well-formed fields over a 98-symbol field alphabet (80 minimal encodings + 18 fields whose key is a padded, non-minimal varint): DecodeTag+Skip returns input[start:end], cursor at end, concatenation reproduces the input. thorough adds all 2^32 values of 32-bit kinds and all 2^29-1 field numbers. Try-typed-then-fall-back: after a key each of the 15 single-value decoders is tried on every field of the alphabet (plus over-wide varints and odd LEN payloads); where the attempt fails, Skip must still return the complete field and leave the cursor on the next key, and the widest decoder of the wire type must read the reference value.",
    note="Encoder output is compared for minimal keys (conforming writers); Skip is also exercised on padded keys; wire types 3/4 unsupported by design. Trusted: the two references (cross-checked against each other on every case)."),
  "C03": dict(level="model_checking", design="DESIGN.md §7 C03",
    technique="explicit-state BFS over the real csproto.Decoder: every operation in every reachable decoder state, per buffer of an exhaustive bounded family; reference-model comparison per transition",
-   text="For every byte string of length <= 4 (thorough 5) over a 16-symbol wire alphabet (no padding, the same as a sub-slice with spare capacity, three 10-byte paddings), BFS from NewDecoder over states keyed by all Decoder struct fields; all ~120 operations applied in every reachable state, so call sequences of every length are covered per buffer. Oracle per transition: no panic, cursor in [0,len], err==nil => reference item exists with equal value and advance == item length, over-long declared length => error, nested callee not invoked for over-long length. Declared-length allocation family runs in an address-space-limited subprocess with a per-call TotalAlloc budget; worker death is attributed to the executing case.",
+   text="For every byte string of length <= 4 (thorough 5) over a 16-symbol wire alphabet (no padding, the same as a sub-slice with spare capacity, three 10-byte paddings), BFS from NewDecoder over states keyed by all Decoder struct fields; all ~120 operations applied in every reachable state, so call sequences of every length are covered per buffer. Oracle per transition: no panic, cursor in [0,len], err==nil => reference item exists with equal value and advance == item length, over-long declared length => error, nested callee not invoked for over-long length. Declared-length allocation family runs in an address-space-limited subprocess with a per-call TotalAlloc budget; worker death is attributed to the executing case. Long-run family: 64 KiB (thorough also 1 MiB) runs of each of the 256 byte values x every operation x both modes x offsets 0/1 with per-call budgets on heap (80 bytes per input byte) and goroutine stack growth (1 MiB), stack capped in the worker so that an unbounded descent is attributed as a worker death.",
    note="Inputs longer than the bound / bytes outside the alphabet not covered. State key = raw bytes of the Decoder struct. Every explored transition is an execution of the real code (traces_validated_against_impl == transitions)."),
 
  "C13": dict(level="exploration", design="DESIGN.md §7 C13",
@@ -32,72 +32,72 @@ CHECKS = {
    note="No state merging (no sound key for aliasing), so coverage = all executions within the bounds. Reading/closing a closed handle is misuse, outside the alphabet. Real sync.Pool behaviours are a subset of the enumerated answers."),
  "C15": dict(level="model_checking", design="DESIGN.md §7 C15",
    technique="controlled cooperative scheduler + DFS with iterative preemption bounding (CHESS style) x pool-answer enumeration on the real lazyproto code; separate free-running -race pass as sampling complement",
-   text="2 threads x 2 iterations and 3 threads x 1 iteration (thorough: + 3x2, higher bounds) sharing one Decoder, each iteration Decode/read/NestedResults/read nested/Close on its own unique input; scheduling points at every Pool.Get/Put, every API boundary and between obtaining and re-verifying values; all interleavings with <= 2 (3) preemptions x <= 1 (2) non-default pool answers. Oracle: per-thread isolation against the reference parse, no panic, no deadlock; replay determinism asserted before exploring.",
+   text="2 threads x 2 iterations and 3 threads x 1 iteration (thorough: + 3x2, higher bounds) sharing one Decoder, each iteration Decode/read/NestedResults/read nested/Close on its own unique input; scheduling points at every Pool.Get/Put, every API boundary and between obtaining and re-verifying values; all interleavings with <= 2 (3) preemptions x <= 1 (2) non-default pool answers. Oracle: per-thread isolation against the reference parse, no panic, no deadlock; replay determinism asserted before exploring. Thread 0 closes the nested results it was handed before it closes the root.",
    note="Cooperative scheduling cannot see unsynchronised accesses inside one API call: the -race pass (G in {2,8,32,64}, GOMAXPROCS {1,2,16}) is sampling and only a complement, reported under coverage.race_pass. Sequential consistency assumed."),
 
  "C04": dict(level="exploration", design="DESIGN.md §7 C04",
    technique="exhaustive feature-matrix enumeration (schemas x runtimes x value trees) executed on fast-marshal code regenerated from the current templates; mutual-agreement oracle with canary-framed exact buffers",
-   text="Corpus = complete kind x cardinality x syntax feature matrix (+ extensions, recursion, maps with every key kind, field-number boundaries) for runtimes gogo+gv2 (thorough: + legacy v1 + gv1 and all field pairs). Fast-marshal code is regenerated from /repo's current generator on every run and compiled per cell. Every field alone at every boundary value of its domain, all-first/second/last, extension value trees: Size (fresh copy) == len(Marshal) == bytes written by MarshalTo into an exactly sized canary-framed window; no panic; csproto.Size/Marshal agree.",
+   text="Corpus = complete kind x cardinality x syntax feature matrix (+ extensions, recursion, maps with every key kind, field-number boundaries) for runtimes gogo+gv2 (thorough: + legacy v1 + gv1 and all field pairs). Fast-marshal code is regenerated from /repo's current generator on every run and compiled per cell. Every field alone at every boundary value of its domain, all-first/second/last, extension value trees: Size (fresh copy) == len(Marshal) == bytes written by MarshalTo into an exactly sized canary-framed window; no panic; csproto.Size/Marshal agree. Hand-built struct shapes no decode produces (nil list element, nil map value, oneof wrapper holding nil, typed nil oneof wrapper, shared child; top level and one level down) on every tree that has the position; packed payloads of exactly 127/128 (16383/16384) bytes built from the widest encoding; lists of 4097 (thorough up to 65537) elements.",
    note="Cells whose code cannot be generated/compiled are quarantined and listed in evidence (they are C16's verdict). Values are built through protoreflect/runtime APIs, never through generated code. Nil-ish hand-built shapes (nil list elements etc.) are not enumerated."),
  "C05": dict(level="exploration", design="DESIGN.md §7 C05",
    technique="exhaustive feature-matrix enumeration; differential oracle against the reference runtime decoding from the descriptor alone (dynamicpb), bit-exact tree comparison",
-   text="Same corpus x runtime x value-tree space as C04. generated.Marshal(m) is parsed by protobuf-go's dynamicpb from descriptors built independently from the corpus definition (protodesc), with dynamic extension types; the decoded tree must equal the source tree bit-exactly (floats by bits incl. -0.0/NaN, presence of every field, extensions), and the reference must see no unknown fields.",
+   text="Same corpus x runtime x value-tree space as C04. generated.Marshal(m) is parsed by protobuf-go's dynamicpb from descriptors built independently from the corpus definition (protodesc), with dynamic extension types; the decoded tree must equal the source tree bit-exactly (floats by bits incl. -0.0/NaN, presence of every field, extensions), and the reference must see no unknown fields. Hand-built struct shapes (as C04; nil map values excepted, the runtimes disagree on them) compared with the reference runtime's own reading of the struct.",
    note="Per case harness guards (reference round trip, struct read-back) turn harness faults into internal errors, not violations. The reference runtime (google.golang.org/protobuf v1.36.4) is trusted."),
  "C20": dict(level="exploration", design="DESIGN.md §7 C20",
    technique="exhaustive enumeration of rendered layouts / short strings / short byte strings / value trees x path subsets against a reference grammar and a reference wire walk; protodump's dumpProto driven through an overlay-injected test file and the real binary",
-   text="Hex: all byte strings <= 3 over 5 symbols x every whitespace/comment/newline/case layout at every gap (15 M renderings quick) every string <= 6 over a 12-character alphabet (hex digits, a non-digit, the comment character, space, tab, LF, VT, NUL, ESC) against a reference grammar, and lines of length 2^k-1, 2^k, 2^k+1 up to 2^18. protodump: dumpProto on all byte strings <= 4 (5) over the 16-symbol wire alphabet x 5 path configurations and value trees (depth 2/3) x every subset of expand/strings paths incl. absent/prefix/over-long/wildcard paths; output parsed tolerantly and compared with a refwire-based reference walk; CLI forms -file, redirected and piped stdin, malformed => exit 1 without panic.",
+   text="Hex: all byte strings <= 3 over 5 symbols x every whitespace/comment/newline/case layout at every gap (15 M renderings quick) every string <= 6 over a 12-character alphabet (hex digits, a non-digit, the comment character, space, tab, LF, VT, NUL, ESC) against a reference grammar, and lines of length 2^k-1, 2^k, 2^k+1 up to 2^18. protodump: dumpProto on all byte strings <= 4 (5) over the 16-symbol wire alphabet x 5 path configurations and value trees (depth 2/3) x every subset of expand/strings paths incl. absent/prefix/over-long/wildcard paths; output parsed tolerantly and compared with a refwire-based reference walk; CLI forms -file, redirected and piped stdin, malformed => exit 1 without panic. Path sets include a specific path plus a covering wildcard of the same length in both orders, duplicated paths, and reversed path order.",
    note="Undocumented combinations (same path in -strings and -expand; line break inside a byte) accept both behaviours. dumpProto is reached through a test file injected with go test -overlay; the binary is rebuilt from /repo per run."),
 
  "C19": dict(level="exploration", design="DESIGN.md §7 C19",
    technique="exhaustive product enumeration (13 message flavours x values x field position x field number x surrounding scalars x failing stubs x declared lengths) with a region-by-region byte oracle built on the spec-derived reference",
-   text="EncodeNested/DecodeNested for fast-marshal (MarshalTo+Size), Sizer+Marshaler, Marshaler-only, gogo plain/self-marshal, legacy golang v1, protov1 stubs and google v2 plain incl. well-known types; values empty/small/127/128/16383/16384-byte payloads; 5 positions among scalar fields; field numbers up to 2^29-1. Bytes must equal key || varint(len) || csproto.Marshal(m) in an exactly sized canary-framed window, cursor pinned by a sentinel field; DecodeNested (safe+fast) consumes exactly the declared length and yields an Equal message; nested errors propagate (errors.Is sentinel); 3900 declared-length cases with a recording unmarshaler that must not be invoked when the length does not fit.",
+   text="EncodeNested/DecodeNested for fast-marshal (MarshalTo+Size), Sizer+Marshaler, Marshaler-only, gogo plain/self-marshal, legacy golang v1, protov1 stubs and google v2 plain incl. well-known types; values empty/small/127/128/16383/16384-byte payloads; 5 positions among scalar fields; field numbers up to 2^29-1. Bytes must equal key || varint(len) || csproto.Marshal(m) in an exactly sized canary-framed window, cursor pinned by a sentinel field; DecodeNested (safe+fast) consumes exactly the declared length and yields an Equal message; nested errors propagate (errors.Is sentinel); 3900 declared-length cases with a recording unmarshaler that must not be invoked when the length does not fit. Values include recursive well-known types nested 60/150/1200 levels; a nested message that its owning runtime reads back but csproto.Unmarshal rejects is a violation.",
    note="A MarshalTo type without Size() is an ill-formed participant (nobody can size its buffer) and is not enumerated. Cursor position after an error is not part of the verdict."),
 
  "C06": dict(level="exploration", design="DESIGN.md §7 C06",
    technique="exhaustive enumeration of wire-level encoding variants of every corpus value tree; differential oracle against the reference runtime's decode of the same bytes",
-   text="For every corpus type x runtime x value tree: all legal encoding variants (order permutations, packed/unpacked/split/mixed, duplicated singular scalar and message fields, every map-entry shape, two oneof members, 7 unknown-field shapes at every position, same inside nested messages) are decoded by the generated Unmarshal into a fresh struct and into a pre-populated struct with primed size cache; the whole check runs on the default generation and on the code generated with enableunsafedecode=true (GENALT); the result (read back through reflection) must equal the reference runtime's decode bit-exactly, incl. unknown bytes.",
+   text="For every corpus type x runtime x value tree: all legal encoding variants (order permutations, packed/unpacked/split/mixed, duplicated singular scalar and message fields, every map-entry shape, two oneof members, 7 unknown-field shapes at every position, same inside nested messages) are decoded by the generated Unmarshal into a fresh struct and into a pre-populated struct with primed size cache; the whole check runs on the default generation and on the code generated with enableunsafedecode=true (GENALT); the result (read back through reflection) must equal the reference runtime's decode bit-exactly, incl. unknown bytes. The canonical encoding also goes into a destination whose previous Unmarshal failed half-way. Variants include unknown fields with one-byte keys and a padded-key unknown field followed by a second unknown field.",
    note="Expected trees always come from the reference decode of the same bytes. Known findings (map-entry shapes, merge of duplicated message fields, repeated/file-scope extensions) are matched by shape-level signatures."),
  "C07": dict(level="exploration", design="DESIGN.md §7 C07",
    technique="exhaustive enumeration of unknown-field insertions over every corpus value tree; reference-decoded comparison of re-marshaled bytes",
-   text="Every encoding variant carrying unknown fields (7 shapes x every position, nested levels, all runtimes; default generation and enableunsafedecode=true): generated Unmarshal then Size/Marshal; reference decode of the output must show the same unknown bytes in order and the same known tree; Size == len(Marshal); second round trip is a fixed point.",
+   text="Every encoding variant carrying unknown fields (7 shapes x every position, nested levels, all runtimes; default generation and enableunsafedecode=true): generated Unmarshal then Size/Marshal; reference decode of the output must show the same unknown bytes in order and the same known tree; Size == len(Marshal); second round trip is a fixed point. Unknown-field shapes include one-byte keys (numbers <= 15 where the schema has room) and a padded-key unknown field followed by a second unknown field in three placements.",
    note="An input that is rejected although the same message without the unknown fields is accepted is a violation here; other rejections are C06/C08 business."),
  "C10": dict(level="exploration", design="DESIGN.md §7 C10",
    technique="exhaustive corpus enumeration with buffer-clobber histories (complement, zero, reuse) and snapshot comparison; lazyproto clause decided by the C14/C15 explorations",
-   text="Every corpus type x runtime x value tree (+ unknown-field variant): generated Unmarshal (default options, and the explicit option enableunsafedecode=false, whose generated code must equal the default or pass the same check) from a private buffer, snapshot of the decoded tree, then the buffer is overwritten with its complement, zeroed, and recycled for another decode; the tree must stay equal to the snapshot. lazyproto clause: 18 messages x {Decoder.Decode safe mode, Decode()} x {complement, zero, recycled buffer}: all 26 accessors and NestedResults/NestedResult decoded lazily after the clobber must still give the original values (C14/C15 additionally clobber the buffer in every explored history/schedule).",
+   text="Every corpus type x runtime x value tree (+ unknown-field variant): generated Unmarshal (default options, and the explicit option enableunsafedecode=false, whose generated code must equal the default or pass the same check) from a private buffer, snapshot of the decoded tree, then the buffer is overwritten with its complement, zeroed, and recycled for another decode; the tree must stay equal to the snapshot. lazyproto clause: 18 messages x {Decoder.Decode safe mode, Decode()} x {complement, zero, recycled buffer}: all 26 accessors and NestedResults/NestedResult decoded lazily after the clobber must still give the original values (C14/C15 additionally clobber the buffer in every explored history/schedule). Snapshots clone strings and string map keys (a string header copied by value still points into the caller's buffer).",
    note="Unsafe/fast mode is opt-in and not checked. Alias detection is by content clobbering (complement pattern changes every byte)."),
 
  "C17": dict(level="exploration", design="DESIGN.md §7 C17",
    technique="exhaustive enumeration of unset-required-field subsets x nesting positions; differential oracle against the reference runtime's initialisation verdict",
-   text="Every proto2 corpus type with required fields: every subset of unset required fields (exhaustive up to 6 fields, structured subsets for the 17-field message), with/without other content, deficient and complete nested messages in singular / list / map-value / oneof positions, empty message and empty input, for every runtime. Marshal, MarshalTo and csproto.Marshal must fail iff proto.CheckInitialized of the tree fails; generated Unmarshal (into a fresh receiver and, with csproto.Unmarshal too, into a receiver that already holds a complete message) of the reference's partial encoding must fail iff the reference's strict Unmarshal does.",
+   text="Every proto2 corpus type with required fields: every subset of unset required fields (exhaustive up to 6 fields, structured subsets for the 17-field message), with/without other content, deficient and complete nested messages in singular / list / map-value / oneof positions, empty message and empty input, for every runtime. Marshal, MarshalTo and csproto.Marshal must fail iff proto.CheckInitialized of the tree fails; generated Unmarshal (into a fresh receiver and, with csproto.Unmarshal too, into a receiver that already holds a complete message) of the reference's partial encoding must fail iff the reference's strict Unmarshal does. Required fields present with the zero / empty value of their kind (all at once, each alone among non-zero ones) are complete messages in both directions.",
    note="Reference = google.golang.org/protobuf dynamicpb over independently built descriptors. Extension positions with required fields are not enumerated."),
 
  "C08": dict(level="exploration", design="DESIGN.md §7 C08",
    technique="exhaustive mutation families (every truncation, every single-byte replacement from an 11-value menu at every offset, every length-prefix inflation) over canonical encodings of all corpus value trees + all short byte strings over a wire alphabet; differential oracle on commonly accepted inputs; crash-attributing subprocess workers",
-   text="For every corpus type x runtime: all truncations, all byte replacements at all offsets, all length-prefix inflations (with per-case allocation budget) of every seed encoding, every seed encoding twice in a row, and every byte string <= 3 (4) over a 16-symbol alphabet. Default generation and enableunsafedecode=true. No panic, no worker death under an address-space limit, allocation linear in the input, and whenever generated Unmarshal and the reference both accept, the decoded trees are equal.",
+   text="For every corpus type x runtime: all truncations, all byte replacements at all offsets, all length-prefix inflations (with per-case allocation budget) of every seed encoding, every seed encoding twice in a row, and every byte string <= 3 (4) over a 16-symbol alphabet. Default generation and enableunsafedecode=true. No panic, no worker death under an address-space limit, allocation linear in the input, and whenever generated Unmarshal and the reference both accept, the decoded trees are equal. Every legal encoding variant of every tree is an input as well, and after every Unmarshal - accepted or rejected - the caller's buffer must hold exactly what it held before.",
    note="Agreement is only required on commonly accepted inputs. Disagreements caused by triaged mechanisms (map-entry shape, unsupported extension shapes) are attributed by a structural classifier and listed as known findings."),
 
  "C12": dict(level="model_checking", design="DESIGN.md §7 C12",
    technique="explicit-state BFS over the real extension accessors (state = operation history replayed on a fresh message, dedup on model map + canonical bytes), every operation and every observation in every state, model + owning-runtime differential oracle",
-   text="For every extendable corpus message (13 scalar/enum/string/bytes/message extension kinds + enum/uint32/sfixed/repeated/file-scope variants, gogoproto and descriptor.proto options) on gogo, legacy v1, gv2, gv1: BFS over Set(e,v1|v2)/Clear(e)/ClearAll with 4 (thorough 6) extensions = all 3^n model states; in every state Has/Get/Range (also early-error callback)/ExtensionFieldNumber/Marshal-Unmarshal crossings and every accessor with descriptors of every other runtime class and non-descriptor values. Results must equal the model and the owning runtime's own API; cleared extensions absent from the bytes; mismatches give false/error with the message unchanged.",
+   text="For every extendable corpus message (13 scalar/enum/string/bytes/message extension kinds + enum/uint32/sfixed/repeated/file-scope variants, gogoproto and descriptor.proto options) on gogo, legacy v1, gv2, gv1: BFS over Set(e,v1|v2)/Clear(e)/ClearAll with 4 (thorough 6) extensions = all 3^n model states; in every state Has/Get/Range (also early-error callback)/ExtensionFieldNumber/Marshal-Unmarshal crossings and every accessor with descriptors of every other runtime class and non-descriptor values. Results must equal the model and the owning runtime's own API; cleared extensions absent from the bytes; mismatches give false/error with the message unchanged. Undecoded clause: the bytes of every extension (two values) are placed in the unknown-field storage of a fresh message; every sequence of <= 3 calls over {HasExtension, GetExtension, ClearExtension} is applied through csproto and, on a twin, through the owning runtime's API: same answer at every call, same message afterwards.",
    note="ClearExtension's documented panic for a wrong descriptor type is tolerated (message must stay unchanged). gv1 vs gv2 are the same runtime class for csproto. Every transition runs on the real code."),
  "C18": dict(level="exploration", design="DESIGN.md §7 C18",
    technique="exhaustive product enumeration (runtimes x value trees x all marshal-option combinations x indent strings; JSON documents x unmarshal-option combinations) with structural option probes and differential decoding through the owning runtime's own JSON codec",
-   text="~9.4k values of 105 types (corpus p2/p3 on gogo/legacy/gv2/gv1, the six example packages, well-known types, gogoproto extension types) x 20 option combinations: json.Valid, decode through the adapter and through the owning runtime's decoder (tree-equal to the source), indent/enum/zero-value probes on the parsed JSON, delegation to json.Marshaler/Unmarshaler, nil / typed-nil / unsupported values; unmarshal side: unknown keys and removed required fields at top level and nested x AllowUnknownFields x AllowPartialMessages.",
+   text="~9.4k values of 105 types (corpus p2/p3 on gogo/legacy/gv2/gv1, the six example packages, well-known types, gogoproto extension types) x 20 option combinations: json.Valid, decode through the adapter and through the owning runtime's decoder (tree-equal to the source), indent/enum/zero-value probes on the parsed JSON, delegation to json.Marshaler/Unmarshaler, nil / typed-nil / unsupported values; unmarshal side: unknown keys and removed required fields at top level and nested x AllowUnknownFields x AllowPartialMessages. After-error clause: per runtime and option combination canary outputs are taken, a marshal fails mid-document (unresolvable Any behind another field), the canaries are produced again on new and on previously used adapters and must be byte-identical; documents rejected half-way followed by the valid document into the same / a new adapter.",
    note="Behaviours that the owning runtime shows identically when called directly (third-party limitations) are counted and excluded, listed in evidence. AllowPartial is documented v2-only."),
 
  "C16": dict(level="exploration", design="DESIGN.md §7 C16",
    technique="exhaustive product enumeration schemas x runtimes x all 16 generator option combinations through the plug-in built from the current sources, with compilation of every compilable option set",
-   text="Every corpus file (feature matrix incl. map<bool>, extension kinds, name-collision files, proto3 optional) for every runtime flavour + the repository's google-v2 example schemas x apiversion x filepermessage x enableunsafedecode x specialname: each request run twice: no error, byte-identical responses, documented and pairwise distinct (case-insensitive) file names, one file per message, every file parses; per-message function bodies identical to single-file ones; requests naming two files to generate (6 file pairs per runtime, both orders, both file modes) return exactly the files of the single-file requests; unsafe option only adds SetMode lines; 5 option sets compiled with the runtime's message types.",
+   text="Every corpus file (feature matrix incl. map<bool>, extension kinds, name-collision files, proto3 optional) for every runtime flavour + the repository's google-v2 example schemas x apiversion x filepermessage x enableunsafedecode x specialname: each request run twice: no error, byte-identical responses, documented and pairwise distinct (case-insensitive) file names, one file per message, every file parses; per-message function bodies identical to single-file ones; requests naming two files to generate (6 file pairs per runtime, both orders, both file modes) return exactly the files of the single-file requests; unsafe option only adds SetMode lines; 5 option sets compiled with the runtime's message types. The corpus includes an import-public chain whose re-exported file has a Go package name different from its directory.",
    note="No protoc in the sandbox: plug-ins are driven with hand-built CodeGeneratorRequests; third-party message types come from the pinned generators (committed under mc/gen). Invalid option values are outside the quantifier."),
 
  "C11": dict(level="model_checking", design="DESIGN.md §7 C11",
    technique="exhaustive product enumeration (flavours x values x API functions) differential against the owning runtimes + controlled-scheduler exploration of ALL interleavings of the first classification of a never-seen type (sync.Map behind the shim)",
-   text="Mode X: fast-marshal corpus types of gogo/legacy v1/gv2/gv1 and plain messages (google v2 well-known types and descriptors, gogo descriptor and self-marshaling types, hand-written Google V1 messages with and without XXX_ methods) x Marshal/Unmarshal (4 directions)/Size/Clone/Equal (all ordered pairs incl. cross-runtime; same pointer and equal copy for every subject, NaN-bearing values always included)/Reset/MarshalText/MsgType/GrpcCodec against the owning runtime called directly; 9 unsupported values and typed-nil pointers: documented error / zero result, no panic. Mode S: 2-4 goroutines calling MsgType/Clone/Equal/HasExtension on a type evicted from the classification cache before every execution; every interleaving of the sync.Map operations (unbounded preemptions); every goroutine must see the right class and the final cache entry must be right.",
+   text="Mode X: fast-marshal corpus types of gogo/legacy v1/gv2/gv1 and plain messages (google v2 well-known types and descriptors, gogo descriptor and self-marshaling types, hand-written Google V1 messages with and without XXX_ methods) x Marshal/Unmarshal (4 directions)/Size/Clone/Equal (all ordered pairs incl. cross-runtime; same pointer and equal copy for every subject, NaN-bearing values always included)/Reset/MarshalText/MsgType/GrpcCodec against the owning runtime called directly; 9 unsupported values and typed-nil pointers: documented error / zero result, no panic. Mode S: 2-4 goroutines calling MsgType/Clone/Equal/HasExtension on a type evicted from the classification cache before every execution; every interleaving of the sync.Map operations (unbounded preemptions); every goroutine must see the right class and the final cache entry must be right. Subjects include dynamicpb twins of generated Google V2 messages (same descriptor, other Go type): Equal(generated, twin) is what proto.Equal says.",
    note="Decoded/cloned messages are compared bit-exactly through reflection (the runtimes' Equal treats NaN as unequal); csproto.Equal itself is compared with the runtime's Equal. Sequential consistency assumed; sync.Map internals are trusted."),
 
  "C09": dict(level="model_checking", design="DESIGN.md §7 C09",
    technique="exhaustive operation-sequence exploration (all histories to depth 4 over a 19/28-operation alphabet, replayed on fresh real messages, reference-model comparison per observer, mechanism attribution by cache neutralisation) + controlled-scheduler exploration of concurrent Size/Marshal with the generated code's atomics as scheduling points; -race pass as sampling complement",
-   text="Histories: every sequence of length 4 over {set/clear scalar, grow/shrink string across the 127/128 boundary, set/clear nested message, mutate nested message only, append/truncate list, mutate list element only, Size, Marshal, MarshalTo, csproto.Size/Marshal, runtime Size/Marshal, Unmarshal x3 (one input with unknown fields), Reset, Clone-and-continue} on the recursive corpus message of p2 and p3 for every runtime; every observer must return the reference marshal of a fresh tree built from the model contents. Schedules: 2-3 goroutines calling Size/Marshal/csproto.Marshal/runtime Size/Marshal on a shared nested message (caches cold / warm / written by the runtime), preemption bound 3 (5) resp. 2 (3), scheduling points at every atomic load/store of the generated code.",
+   text="Histories: every sequence of length 4 over {set/clear scalar, grow/shrink string across the 127/128 boundary, set/clear nested message, mutate nested message only, append/truncate list, mutate list element only, Size, Marshal, MarshalTo, csproto.Size/Marshal, runtime Size/Marshal, Unmarshal x3 (one input with unknown fields), Reset, Clone-and-continue} on the recursive corpus message of p2 and p3 for every runtime; every observer must return the reference marshal of a fresh tree built from the model contents. Schedules: 2-3 goroutines calling Size/Marshal/csproto.Marshal/runtime Size/Marshal on a shared nested message (caches cold / warm / written by the runtime), preemption bound 3 (5) resp. 2 (3), scheduling points at every atomic load/store of the generated code. Observer-only histories: every sequence of <= 3 calls over {Size, Marshal, MarshalTo, csproto.Size, csproto.Marshal, runtime Size, runtime Marshal} without any mutation on every extension-bearing corpus message and on the special trees of p2/p3/p3opt/p2def messages; every answer equals the answer of a fresh copy.",
    note="Failing histories are attributed to the known size-cache mechanism only if re-running them with all size-cache words zeroed right before the failing call passes AND a cache-writing call precedes the last mutation; anything else is a new violation. Runtime calls are atomic steps of the scheduler; the -race pass is sampling."),
 }
 
